@@ -234,10 +234,14 @@ def Op.node : Op → Node
 (first call of every operation: nothing has happened yet) and in `AddWithReplicas` after `Remove` returned (second
 call of an adding operation: the node is removed, not yet re-inserted). All other `String()` calls (on stored nodes in
 `removeRingNode` / `insertRingNode`, on the lookup key in `Get`) run under the lock, which is released by `defer`. -/
+def faultAdd (H : Hasher) (s : CH) (n : Node) (nth : Nat) : CH := if nth ≤ 1 then s else remove H s n
+
 def stepFault (H : Hasher) (s : CH) (op : Op) (nth : Nat) : CH :=
   match op with
   | .remove _ => s
-  | _ => if nth ≤ 1 then s else remove H s op.node
+  | .add n => faultAdd H s n nth
+  | .addR n _ => faultAdd H s n nth
+  | .addW n _ => faultAdd H s n nth
 
 /-! ### the users: cache.New and kv.NewStore (constructor → AddWithWeight → ring → Get) -/
 
@@ -258,6 +262,10 @@ inductive UserInst where
   | fatal
   | direct (n : Node)
   | ring (s : CH)
+
+def UserInst.isFatal : UserInst → Bool
+  | .fatal => true
+  | _ => false
 
 /-- `len(c) == 0 || TotalWeights(c) <= 0` -/
 def userFatal (conf : List (Node × Int)) : Bool := conf.length == 0 || decide (totalWeights conf ≤ 0)
